@@ -12,7 +12,10 @@ from fractions import Fraction as F
 
 from .. import exactspec as X
 from ..build import build, num
-from ..compare import Raised, call, detail, disc, mutable_ids, same, snap_key, snapshot, tname
+import os
+import pickle
+
+from ..compare import Raised, call, detail, disc, disc_data, mutable_ids, same, same_data, snap_key, snapshot, tname, to_data
 from ..libenv import lib
 
 NAME = "C20"
@@ -226,6 +229,9 @@ class GenModel(object):
                 q = "in"
             else:
                 q = r.choice(PAIR_Q[3:] + SELF_Q)
+        vecs = self.ids(lambda e: e["t"] == "Vector")
+        if q in ("angle", "parallel", "orthogonal") and len(vecs) >= 1 and a is None and b is None and r.random() < 0.3:
+            a, b = r.choice(vecs), r.choice(vecs)  # the Vector/Vector forms of these queries
         a = a or r.choice(objs)
         if q in PAIR_Q:
             b = b or r.choice(objs)
@@ -258,8 +264,11 @@ class GenModel(object):
         op = {"op": "MUTATE", "i": i, "how": how}
         if how == "move":
             v = tuple(F(r.randint(-6, 6), 4) for _ in range(3))
-            if r.random() < 0.1:
+            x = r.random()
+            if x < 0.1:
                 v = X.ZERO
+            elif x < 0.4:  # axis-aligned moves
+                v = X.mul(F(r.choice([-6, -4, -2, -1, 1, 2, 4, 6]), 4), r.choice(X.AXES))
             op["v"] = X.ser(v)
         elif how == "setitem":
             op["idx"], op["val"] = r.randrange(3), val()
@@ -317,6 +326,25 @@ def generate(rng, k, tier="quick"):
         r = rng.random()
         if r < 0.03 and len(m.ent) < 12:
             m.aux_query()
+        elif r > 0.9 and rng.random() < 0.8:
+            # ask - move an operand in place (axis-aligned) - ask again [- move back - ask again]
+            movable = m.ids(lambda e: e["mut"] and e["kind"] in ("composite", "copy") and e["t"] not in ("Vector", "?"))
+            others = m.ids(lambda e: e["t"] not in ("Vector",))
+            if movable and others:
+                a, b = rng.choice(movable), rng.choice(others)
+                q = rng.choice(["inter_f", "inter_f", "in", "distance", "inter_m"])
+                first, second = (a, b) if rng.random() < 0.5 else (b, a)
+                op = m.query(a=first, b=second, q=q)
+                v = X.mul(F(rng.choice([-4, -2, -1, 1, 2, 4]), 4), rng.choice(X.AXES))
+                m.ops.append({"op": "MUTATE", "i": a, "how": "move", "v": X.ser(v)})
+                m.ops.append({"op": "QUERY", "qid": m.nid("q"), "q": q, "a": first, "b": second})
+                m.queries.append(m.ops[-1]["qid"])
+                if rng.random() < 0.4:
+                    m.ops.append({"op": "MUTATE", "i": a, "how": "move", "v": X.ser(X.mul(F(-1), v))})
+                    m.ops.append({"op": "QUERY", "qid": m.nid("q"), "q": q, "a": first, "b": second})
+                    m.queries.append(m.ops[-1]["qid"])
+                if rng.random() < 0.5:
+                    m.ops.append({"op": "COLD_REPLAY"})
         elif r < 0.05 and len(m.ent) < 12 and not heavy:
             bid = m.round_builder()
             if bid and rng.random() < 0.7:
@@ -333,12 +361,12 @@ def generate(rng, k, tier="quick"):
                     m.query(a=bid)
         elif r < 0.55:
             op = m.query()
-            if op and rng.random() < 0.3:
+            if op and rng.random() < 0.4:
                 # a mutation between two identical queries
                 tgt = rng.choice([x for x in (op["a"], op["b"]) if x])
                 e = m.ent[tgt]
                 src = [a for a in e.get("from", []) if m.ent.get(a, {}).get("mut")]
-                if src and rng.random() < 0.7:
+                if src and rng.random() < 0.5:
                     m.mutate(rng.choice(src))
                 elif e["mut"]:
                     m.mutate(tgt)
@@ -521,6 +549,85 @@ def _cold_world(ops, upto):
     return w
 
 
+def _resolve(op, qops):
+    """(q, a, b, c, keep) of a QUERY / REASK op, or None"""
+    if op["op"] == "REASK":
+        src = qops.get(op.get("ref"))
+        if src is None:
+            return None
+        return src["q"], src["a"], src["b"], src.get("c"), None
+    qops[op.get("qid")] = op
+    return op["q"], op["a"], op["b"], op.get("c"), op.get("keep")
+
+
+def cold_answers(ops, upto):
+    """history-free answers for checkpoint `upto` (1-based step of a COLD_REPLAY
+    op): replay only the structural ops (and kept queries, which are
+    constructions) into a world that never sees another query, then ask the
+    queries that are still current. Run in a forked child taken *before* the hot
+    execution starts, so that not even process-global state (module-level
+    caches, class attributes) has seen the history's queries."""
+    W = World(cold=True)
+    asked, qops = [], {}
+    for step, op in enumerate(ops[: upto - 1], 1):
+        k = op["op"]
+        if k in ("NEW_LEAF", "BUILD", "MUTATE", "DEEPCOPY"):
+            W.apply_structural(op)
+        elif k in ("QUERY", "REASK"):
+            res = _resolve(op, qops)
+            if res is None:
+                continue
+            q, a, b, c3, keep = res
+            if a not in W.e or (b is not None and b not in W.e) or (c3 is not None and c3 not in W.e):
+                continue
+            asked.append((step, q, a, b, W.versions(a, b, c3), c3))
+            if keep:
+                r, ok = W.ask(q, a, b, c3)
+                if ok and not isinstance(r, Raised) and r is not None and not isinstance(r, (bool, int, float)):
+                    W.put(keep, copy.deepcopy(r), "result")
+    cur = [x for x in asked if x[2] in W.e and (x[3] is None or x[3] in W.e) and (x[5] is None or x[5] in W.e) and W.versions(x[2], x[3], x[5]) == x[4]]
+    out = {}
+    for (st, q, a, b, vers, c3) in cur[-16:]:
+        r, ok = W.ask(q, a, b, c3)
+        if ok:
+            out[st] = to_data(r)
+    return out
+
+
+def forked_cold(ops):
+    """{checkpoint step: {asked step: data}} computed in forked children, one per
+    checkpoint, all taken before the hot execution begins; None if fork is
+    unavailable"""
+    if not hasattr(os, "fork"):
+        return None
+    res = {}
+    for step, op in enumerate(ops, 1):
+        if op["op"] != "COLD_REPLAY":
+            continue
+        rfd, wfd = os.pipe()
+        pid = os.fork()
+        if pid == 0:  # child
+            code = 0
+            try:
+                os.close(rfd)
+                data = pickle.dumps(cold_answers(ops, step))
+                with os.fdopen(wfd, "wb") as w:
+                    w.write(data)
+            except BaseException:
+                code = 1
+            finally:
+                os._exit(code)
+        os.close(wfd)
+        with os.fdopen(rfd, "rb") as r:
+            buf = r.read()
+        _, status = os.waitpid(pid, 0)
+        if status != 0 or not buf:
+            res[step] = None
+        else:
+            res[step] = pickle.loads(buf)
+    return res
+
+
 def execute(history, opts=None):
     G = lib()
     ctx = Ctx()
@@ -531,6 +638,7 @@ def execute(history, opts=None):
         fd = hashlib.sha256()
     ctx.fd = fd
     ops = history["ops"]
+    cold = forked_cold(ops) if not (opts and opts.get("no_fork")) else None
     W = World()
     snaps = {}
     answers = {}  # op index -> (q, a, b, versions, stored answer)
@@ -646,29 +754,43 @@ def execute(history, opts=None):
         elif kind == "COLD_REPLAY":
             # K3: a world that has never seen a query gives the same answers
             cur = [x for x in asked if x[2] in W.e and (x[3] is None or x[3] in W.e) and (x[6] is None or x[6] in W.e) and W.versions(x[2], x[3], x[6]) == x[4]]
-            cur = cur[-10:]
+            cur = cur[-16:]
             if not cur:
                 ctx.event(step, kind, "nothing-current")
                 continue
-            C1 = _cold_world(ops, step - 1)
             ctx.count("cold_replays")
             outs = []
-            for (st, q, a, b, vers, hot, c3) in cur:
-                r1, ok = C1.ask(q, a, b, c3)
-                if not ok:
-                    outs.append("noop")
+            if cold is not None:
+                answers_c = cold.get(step)
+                if answers_c is None:
+                    ctx.count("cold_child_failed")
+                    ctx.event(step, kind, "child-failed")
                     continue
-                ctx.count("K3_cold_checks")
-                agree = same(hot, r1, angle=(q == "angle"))
-                outs.append(disc(r1) + ("" if agree else "#"))
-                if not agree:
-                    C2 = _cold_world(ops, step - 1)
-                    r2, _ = C2.ask(q, a, b, c3)
-                    if not same(r1, r2, angle=(q == "angle")):
-                        ctx.count("ill_conditioned")
+                ctx.count("cold_replays_forked")
+                for (st, q, a, b, vers, hot, c3) in cur:
+                    if st not in answers_c:
+                        outs.append("noop")
                         continue
-                    ta, tb = tname(W.get(a)), (tname(W.get(b)) if b is not None else "-")
-                    ctx.vio(step, "K3", "cold/%s/%sx%s" % (q, ta, tb), q, "%s->%s" % (disc(r1), disc(hot)), {"hot": detail(hot), "cold": detail(r1), "asked_at_step": st, "a": a, "b": b})
+                    ctx.count("K3_cold_checks")
+                    hd, cd = to_data(hot), answers_c[st]
+                    agree = same_data(hd, cd, angle=(q == "angle"))
+                    outs.append(disc_data(cd) + ("" if agree else "#"))
+                    if not agree:
+                        ta, tb = tname(W.get(a)), (tname(W.get(b)) if b is not None else "-")
+                        ctx.vio(step, "K3", "cold/%s/%sx%s" % (q, ta, tb), q, "%s->%s" % (disc_data(cd), disc_data(hd)), {"hot": detail(hot), "cold": repr(cd)[:400], "asked_at_step": st, "a": a, "b": b})
+            else:
+                C1 = _cold_world(ops, step - 1)
+                for (st, q, a, b, vers, hot, c3) in cur:
+                    r1, ok = C1.ask(q, a, b, c3)
+                    if not ok:
+                        outs.append("noop")
+                        continue
+                    ctx.count("K3_cold_checks")
+                    agree = same(hot, r1, angle=(q == "angle"))
+                    outs.append(disc(r1) + ("" if agree else "#"))
+                    if not agree:
+                        ta, tb = tname(W.get(a)), (tname(W.get(b)) if b is not None else "-")
+                        ctx.vio(step, "K3", "cold/%s/%sx%s" % (q, ta, tb), q, "%s->%s" % (disc(r1), disc(hot)), {"hot": detail(hot), "cold": detail(r1), "asked_at_step": st, "a": a, "b": b})
             ctx.event(step, kind, ",".join(outs))
         else:
             ctx.event(step, kind, "unknown-op")
